@@ -327,6 +327,9 @@ class MessageHeader:
 
         if return_buffer:
             return buffer
+        elif payload is not None:
+            # The serialized content is the header followed by the payload.
+            return MessageHeader._SIZE + len(payload)
         else:
             return self.calcsize()
 
